@@ -281,6 +281,10 @@ class _Gen:
                 ops.append({"op": "initopt", "kw": self.opt_kw()})
             elif k == "restart":
                 ops.append(self.op_restart())
+                if rng.random() < 0.5:
+                    # ... edit the loaded copy, then load the same blob again
+                    ops.extend(self.op_edit())
+                    ops.append(self.op_reload_check())
             elif k == "heat" and self.meta["thermal"]:
                 ops.extend(self.op_heat_from_stored())
             elif k == "reusepair":
@@ -389,7 +393,7 @@ class _Gen:
         for (t, i, c) in self.meta["toggles"]:
             cands.append((t, i, c, "toggle"))
         has_pump = any(b[0] == "pump" for b in self.meta["branches"])
-        if self.meta["fluid"] == "water" and not self.program.get("fluid_spec") and rng.random() < (0.4 if has_pump else 0.12) \
+        if self.meta["fluid"] == "water" and not self.program.get("fluid_spec") and rng.random() < (0.4 if has_pump else (0.3 if self.prop == "C15" else 0.12)) \
                 and "fluid:density" not in self.values and "fluid:viscosity" not in self.values:
             # a property of the Fluid object replaced in place (restored by the undo)
             which = rng.choice(["density", "density", "viscosity"] if has_pump else ["density", "viscosity"])
@@ -460,6 +464,10 @@ class _Gen:
             if rng.random() < 0.15 and self.meta["thermal"]:
                 kw["mode"] = rng.choice(["sequential", "all"])
         return {"op": "setopt", "reset": reset, "kw": kw}
+
+    def op_reload_check(self):
+        """Load the blob of the last save once more (after whatever happened to the first loaded copy since)."""
+        return {"op": "reload_check"}
 
     def op_restart(self):
         rng = self.rng
@@ -852,6 +860,22 @@ def _execute(trace, res, prop, program, meta, ops, solver, fs):
             continue
 
         # --------------------------------------------------------------------------------
+        if kind == "reload_check":
+            blob = getattr(live, "last_blob", None)
+            if blob is None:
+                continue
+            try:
+                again = pp.from_json_string(blob[0], encryption_key=KEY) if blob[1] else pp.from_json_string(blob[0])
+            except Exception as e:
+                res.violate("C15", "C15/second-load-raised:%s" % type(e).__name__, repr(e)[:200], oi)
+                continue
+            d = snap.diff(blob[2], snap.snapshot(again, include_results=True))
+            for x in d:
+                res.violate("C15", "C15/second-load-of-the-same-save-differs:%s" % _strip(x), x, oi)
+            res.oracle_checks += 1
+            res.count("probe:same-save-loaded-twice")
+            continue
+
         if kind == "restart":
             restarted += 1
             reuse_ok = False
@@ -1437,6 +1461,16 @@ def _do_restart(res, live, op, fs, oi, n):
     if live.stored_sol is not None:
         res.count("probe:restart-between-hyd-and-heat")
     # the Python object is dropped; only what was written survives
+    live.last_blob = None
+    if op["path"] in ("json_str", "json_enc"):
+        # keep the saved text and what its first load looked like (for a later second load of the same save)
+        try:
+            txt = pp.to_json(live.net, encryption_key=KEY) if op["path"] == "json_enc" else pp.to_json(live.net)
+            first = pp.from_json_string(txt, encryption_key=KEY) if op["path"] == "json_enc" else pp.from_json_string(txt)
+            live.last_blob = (txt, op["path"] == "json_enc", snap.snapshot(first, include_results=True))
+            loaded = first
+        except Exception:
+            live.last_blob = None
     live.net = loaded
     live.last_res = None
 
